@@ -47,9 +47,9 @@ CLAIMED = {
         design_ref='DESIGN.md STATUS, 7 (C04)', note='E2 (struct.unpack is the IEEE-754 value), E3 (real arithmetic); FloatDataEncoding._get_raw_value bounded',
         technique='contract-based deductive verification: AST->VC symbolic execution of the real functions against sidecar contracts, z3/cvc5; bounded stand-in for the float bit-pattern decoding'),
     'C05': dict(cat=P,
-        text='parse_ccsds_packet is PROVED: a descent happens only to the unique child whose restriction criteria all hold (oracle nvalid == 1, child satisfies rc_match and is one of the inheritors); normal return only at a concrete container with no matching child; UnrecognizedPacketTypeError exactly at an abstract dead end or an ambiguity, carrying the packet decoded so far (payload obligation); the result is the argument packet. The criteria evaluators underneath are proved (C06). The entry-list walk SequenceContainer.parse is an ASSUMED frame-only contract (writes packet items and cursor only); which items it writes, nested references expanded in place, header/user-data views and inheritor back-population are checked against ref_parse on random container trees (bounded), incl. zero-width trailing entries and packets cut to the consumed length.',
-        design_ref='DESIGN.md STATUS, 7 (C05)', note='SequenceContainer.parse assumed (frame only) + bounded; from_xtce bounded (E6)',
-        technique='contract-based deductive verification: AST->VC symbolic execution of the real functions against sidecar contracts, z3/cvc5; bounded stand-in for the entry-list walk and the XML reader'),
+        text='PROVED: parse_ccsds_packet descends only to the unique child whose restriction criteria all hold (oracle nvalid == 1; the child satisfies rc_match and is one of the inheritors), returns normally only at a concrete container with no matching child, and raises UnrecognizedPacketTypeError exactly at an abstract dead end or an ambiguity, carrying the packet decoded so far (payload obligation); the result is the argument packet. PROVED: the entry-list walk SequenceContainer.parse decodes exactly the parameters of the entry list, in entry-list order, each once, nested container references expanded in place (ghost event log == old log ++ flat(self), recursive spec flat_upto, whatever the packet holds: no early exit, no skipping), and Parameter.parse (plain parameter types) stores the decoded value under its own name, a new name at the END of the packet, other items untouched. The criteria evaluators underneath are proved (C06). Header/user-data views, enumerated/boolean/time parameters inside the walk, and inheritor back-population by the XML reader are checked against ref_parse on random container trees (bounded), incl. zero-width trailing entries and packets cut to the consumed length.',
+        design_ref='DESIGN.md STATUS, 7 (C05)', note='definition validity predicate defn_ok assumed of the input (shape invariants the decoders require); from_xtce bounded (E6)',
+        technique='contract-based deductive verification: AST->VC symbolic execution of the real functions against sidecar contracts, z3/cvc5; ghost event log and recursive spec functions; bounded stand-in for the XML reader'),
     'C06': dict(cat=P,
         text='All four evaluators are PROVED for every operator spelling, both selectors, int/float/str operands incl. falsy values and int-versus-float (exact over the reals), literals coerced in the type of the selected value: Comparison.evaluate, Condition.evaluate, BooleanExpression.evaluate with its nested _and/_or (structural induction through the contracts of the nested functions: arbitrary depth), DiscreteLookup.evaluate (first entry whose criteria all hold). Denotations are opaque spec functions (sem_cmp, sem_cond, sem_and/sem_or, sem_bexp) revealed only in the proof of the function that implements them; clients (context calibrators, container descent, computed lengths) use the denotations. The same contracts are run natively against an exact-rational reference (near-equal floats, conditions differing only in a selector).',
         design_ref='DESIGN.md STATUS, 7 (C06)', note='bool- and bytes-valued operands and mixed text/number operands are outside the statement (contract requires)',
@@ -91,7 +91,7 @@ CLAIMED = {
         design_ref="DESIGN.md 7 (C13)", note="E11 (cached_property returns the first computed value; the buffer is immutable)",
         technique="contract-based deductive verification + lemmas as ghost client programs over contracts"),
     'C14': dict(cat=P,
-        text='PROVED: both cursor reads return normally only for nbits >= 0 and move the cursor by exactly nbits; integer/float fields advance by their width, string/binary fields by the computed length (negative or over-long lengths raise); packet_generator yields a parsed packet with no length warning issued in that iteration exactly when pos == 8*len(raw_data), and withholds it otherwise unless parse_bad_pkts (yield clause clean_iff_consumed). The sum over the entry-list walk (SequenceContainer.parse, assumed frame-only) is checked by the bounded stand-in with packets cut to the consumed length and 1..7 left-over bits.',
+        text='PROVED: both cursor reads return normally only for nbits >= 0 and move the cursor by exactly nbits; integer/float fields advance by their width, string/binary fields by the computed length (negative or over-long lengths raise); packet_generator yields a parsed packet with no length warning issued in that iteration exactly when pos == 8*len(raw_data), and withholds it otherwise unless parse_bad_pkts (yield clause clean_iff_consumed). The entry-list walk is proved to decode each entry exactly once in order with a monotone cursor, so the cursor after a parse is the start plus the widths of the decoded fields; the whole-packet sum is additionally checked by the bounded stand-in with packets cut to the consumed length and 1..7 left-over bits.',
         design_ref='DESIGN.md STATUS, 7 (C14)', note='entry-list walk bounded',
         technique='contract-based deductive verification: AST->VC symbolic execution of the real functions against sidecar contracts, z3/cvc5; bounded stand-in for the walk'),
     'C15': dict(cat=X,
